@@ -10,6 +10,7 @@ import (
 	"encoding/json"
 	"flag"
 	"fmt"
+	"math"
 	"os"
 	"regexp"
 	"strconv"
@@ -67,6 +68,142 @@ type jsonCase struct {
 	Want  tval   `json:"want"`
 	Str   string `json:"str"`
 	Shape string `json:"shape"`
+	Num   string `json:"num"`
+	Form  string `json:"form"`
+	Elems []struct {
+		K    string `json:"k"`
+		Desc string `json:"desc"`
+		Sal  int    `json:"sal"`
+	} `json:"elems"`
+	Set struct {
+		Accepted bool `json:"accepted"`
+		Rules    []struct {
+			Desc string `json:"desc"`
+			Sal  int    `json:"sal"`
+		} `json:"rules"`
+	} `json:"set"`
+}
+
+// jsonSetCase builds the rule set of a "jsonset" case and checks acceptance, the rule headers, and that the
+// translation of the array is the concatenation of the translations of its elements.
+func jsonSetCase(c *jsonCase) (what string, want, got interface{}) {
+	var elems []string
+	for i, e := range c.Elems {
+		name := fmt.Sprintf("R%d", i)
+		r := J{"name": name, "when": J{"eq": []interface{}{J{"const": 1}, J{"const": 1}}},
+			"then": []interface{}{J{"call": []interface{}{"Retract", J{"const": name}}}}}
+		if e.Desc != "-" {
+			r["desc"] = e.Desc
+		}
+		if e.Sal != 99 {
+			r["salience"] = e.Sal
+		}
+		switch e.K {
+		case "no-when":
+			delete(r, "when")
+		case "no-then":
+			delete(r, "then")
+		case "no-name":
+			delete(r, "name")
+		}
+		b, _ := json.Marshal(r)
+		if e.K == "null" {
+			b = []byte("null")
+		}
+		elems = append(elems, string(b))
+	}
+	text := "[" + strings.Join(elems, ",") + "]"
+	lib := ast.NewKnowledgeLibrary()
+	err := buildJSON(lib, text)
+	if (err == nil) != c.Set.Accepted {
+		g := "accepted"
+		if err != nil {
+			g = "refused: " + err.Error()
+		}
+		return "rule set " + text, map[bool]string{true: "accepted", false: "refused"}[c.Set.Accepted], g
+	}
+	if err != nil {
+		return "", nil, nil
+	}
+	whole, err := pkg.ParseJSONRuleset([]byte(text))
+	if err != nil {
+		return "translate " + text, "a translation", err.Error()
+	}
+	parts := ""
+	for _, e := range elems {
+		one, err := pkg.ParseJSONRule([]byte(e))
+		if err != nil {
+			return "translate " + e, "a translation", err.Error()
+		}
+		parts += one
+	}
+	if whole != parts {
+		return "translation of " + text, parts, whole
+	}
+	kb := lib.GetKnowledgeBase("j", "1")
+	for i, w := range c.Set.Rules {
+		re, ok := kb.RuleEntries[fmt.Sprintf("R%d", i)]
+		if !ok {
+			return "rule set " + text, fmt.Sprintf("rule R%d", i), "absent"
+		}
+		if re.RuleDescription != w.Desc || re.Salience != w.Sal {
+			return fmt.Sprintf("header of rule R%d of %s", i, text), fmt.Sprintf("%q salience %d", w.Desc, w.Sal), fmt.Sprintf("%q salience %d", re.RuleDescription, re.Salience)
+		}
+	}
+	return "", nil, nil
+}
+
+type NumSink struct {
+	F   float64
+	Got map[string]float64
+}
+
+func (s *NumSink) Put(k string, v float64) { s.Got[k] = v }
+func (s *NumSink) PutI(k string, v int64)  { s.Got[k] = float64(v) }
+
+// jsonNumCase: the number of the case as a bare operand, inside {"const": }, or as a call argument.
+func jsonNumCase(c *jsonCase) (what string, want, got interface{}) {
+	x, err := strconv.ParseFloat(c.Num, 64)
+	must(err)
+	num := json.RawMessage(c.Num)
+	put := "S.Put"
+	if x == math.Trunc(x) && math.Abs(x) < 1e18 {
+		put = "S.PutI" // a whole number is translated to an integer literal
+	}
+	var operand interface{} = num
+	if c.Form == "const" {
+		operand = J{"const": num}
+	}
+	rule := J{"name": "N", "desc": "d", "salience": 0, "when": J{"eq": []interface{}{"S.F", operand}},
+		"then": []interface{}{J{"call": []interface{}{put, J{"const": "hit"}, operand}}, J{"call": []interface{}{"Retract", J{"const": "N"}}}}}
+	if c.Form == "arg" {
+		rule["when"] = J{"eq": []interface{}{J{"const": 1}, J{"const": 1}}}
+		rule["then"] = []interface{}{J{"call": []interface{}{put, J{"const": "hit"}, num}}, J{"call": []interface{}{"Retract", J{"const": "N"}}}}
+	}
+	text, _ := json.Marshal(rule)
+	grl, _ := pkg.ParseJSONRule(text)
+	lib := ast.NewKnowledgeLibrary()
+	if err := buildJSON(lib, string(text)); err != nil {
+		return "number " + c.Num + " (" + c.Form + "): " + grl, "accepted", err.Error()
+	}
+	kb, err := lib.NewKnowledgeBaseInstance("j", "1")
+	if err != nil {
+		return "instantiate", "instance", err.Error()
+	}
+	s := &NumSink{F: x, Got: map[string]float64{}}
+	dc := ast.NewDataContext()
+	dc.Add("S", s)
+	if err := (&engine.GruleEngine{MaxCycle: 5}).Execute(dc, kb); err != nil {
+		return "number " + c.Num + " (" + c.Form + "): " + grl, "no error", err.Error()
+	}
+	if v, ok := s.Got["hit"]; !ok || v != x {
+		g := "the rule did not fire"
+		if ok {
+			g = strconv.FormatFloat(v, 'g', -1, 64)
+		}
+		return "number " + c.Num + " (" + c.Form + "): " + grl, c.Num, g
+	}
+	return "", nil, nil
 }
 
 type JSink struct {
@@ -321,6 +458,24 @@ func cmdJSONReplay(args []string) {
 			rule := J{"name": name, "desc": c.Str, "salience": sal, "when": J{"eq": []interface{}{J{"const": c.Str}, J{"const": c.Str}}},
 				"then": []interface{}{J{"call": []interface{}{"S.PutS", key, J{"const": c.Str}}}, retract}}
 			jobs = append(jobs, pending{key: key, rule: rule, c: c, raw: raw, desc: c.Str, sal: sal})
+		case "jsonset", "jsonnum":
+			func() {
+				defer func() {
+					if r := recover(); r != nil {
+						report(nil, c, raw, c.Fam, "a result or an error", fmt.Sprintf("panic: %v", r), "")
+					}
+				}()
+				what, want, got := "", interface{}(nil), interface{}(nil)
+				if c.Fam == "jsonset" {
+					what, want, got = jsonSetCase(c)
+				} else {
+					what, want, got = jsonNumCase(c)
+				}
+				if what != "" {
+					report(nil, c, raw, what, want, got, "")
+				}
+			}()
+			evals++
 		case "jsonbad":
 			text, known := badRule(c.Shape)
 			if !known {
